@@ -158,6 +158,9 @@ pub struct WalletSim {
     /// scan again (forced rescan through rewind_to_chain_state / queue_rescans)
     pub requeued: BTreeSet<u32>,
     pub t_coins: Vec<TCoin>,
+    /// the client passes subtree roots on (it has done so at least once) / the chain has changed since it last did
+    pub roots_put: bool,
+    pub roots_stale: bool,
     /// last transparent balance (total + uneconomic) read per account
     pub t_balances: BTreeMap<usize, u64>,
 }
@@ -260,6 +263,8 @@ impl WalletSim {
             frontier_starts: BTreeSet::new(),
             requeued: BTreeSet::new(),
             t_coins: vec![],
+            roots_put: false,
+            roots_stale: false,
             t_balances: BTreeMap::new(),
         };
         let birthday = AccountBirthday::from_parts(s.chain.chain_state_at(s.cfg.base_height).unwrap(), None);
@@ -413,6 +418,12 @@ impl WalletSim {
             self.scanned.remove(&x);
         }
         self.requeued.retain(|x| *x <= h);
+        if self.roots_put {
+            // the roots the client passed on may describe the abandoned branch; it is told of the reorg, rewinds the wallet
+            // to the fork point (which makes the wallet drop what it was given above it) and downloads them again
+            self.roots_stale = true;
+            self.dirty_fork = Some(self.dirty_fork.map(|d| d.min(h)).unwrap_or(h));
+        }
         self.stale = dropped;
         ctx.fault("reorg");
     }
@@ -608,6 +619,65 @@ impl WalletSim {
                 Ok(Ok(()))
             }
         }
+    }
+
+    /// The client hands the wallet the true roots of every subtree the chain has completed up to the tip it knows
+    /// (as a light-wallet server reports them), for one pool.
+    pub fn put_subtree_roots(&mut self, pool: Pool, upto: u32, ctx: &mut RunCtx) -> Result<Result<usize, String>, Violation> {
+        use zcash_client_backend::data_api::chain::CommitmentTreeRoot;
+        use zcash_client_backend::data_api::WalletCommitmentTrees;
+        let subs = self.chain.completed_subtrees(pool, upto);
+        if subs.is_empty() {
+            return Ok(Ok(0));
+        }
+        let start = subs[0].0;
+        let r = {
+            let mut d = db!(self);
+            catch(|| match pool {
+                Pool::Sapling => {
+                    let roots: Vec<_> = subs.iter().map(|(_, h, r)| CommitmentTreeRoot::from_parts(BlockHeight::from_u32(*h), Option::from(sapling::Node::from_bytes(*r)).expect("node"))).collect();
+                    d.put_sapling_subtree_roots(start, &roots).map_err(|e| format!("{e:?}"))
+                }
+                Pool::Orchard => {
+                    let roots: Vec<_> = subs.iter().map(|(_, h, r)| CommitmentTreeRoot::from_parts(BlockHeight::from_u32(*h), Option::from(orchard::tree::MerkleHashOrchard::from_bytes(r)).expect("node"))).collect();
+                    d.put_orchard_subtree_roots(start, &roots).map_err(|e| format!("{e:?}"))
+                }
+                Pool::Ironwood => {
+                    let roots: Vec<_> = subs.iter().map(|(_, h, r)| CommitmentTreeRoot::from_parts(BlockHeight::from_u32(*h), Option::from(orchard::tree::MerkleHashOrchard::from_bytes(r)).expect("node"))).collect();
+                    d.put_ironwood_subtree_roots(start, &roots).map_err(|e| format!("{e:?}"))
+                }
+            })
+        };
+        match r {
+            Err(m) => Err(Violation::keyed("no_panic", format!("panic:{}", crate::runner::panic_site(&m)), format!("put_{}_subtree_roots panicked: {m}", pool.name()))),
+            Ok(Err(e)) => Ok(Err(e)),
+            Ok(Ok(())) => {
+                ctx.probe("true_subtree_roots_inserted");
+                self.roots_put = true;
+                Ok(Ok(subs.len()))
+            }
+        }
+    }
+
+    /// Steps 1-2 of the documented sync algorithm: a client that passes subtree roots on downloads them again at the
+    /// start of every sync session; after a reorg the server's answer has changed.
+    pub fn refresh_roots_if_stale(&mut self, ctx: &mut RunCtx) -> Result<(), Violation> {
+        if !self.roots_stale {
+            return Ok(());
+        }
+        let upto = self.chain.tip();
+        for pool in POOLS {
+            if !self.chain.pool_active(pool, upto) {
+                continue;
+            }
+            match self.put_subtree_roots(pool, upto, ctx)? {
+                Ok(_) => {}
+                Err(e) => return Err(Violation::new("true_subtree_roots_accepted", format!("put_{}_subtree_roots with the new branch's roots failed: {e}", pool.name()))),
+            }
+        }
+        self.roots_stale = false;
+        ctx.probe("subtree_roots_refreshed_after_reorg");
+        Ok(())
     }
 
     /// Pointwise view of the stored queue: priority code per height.
@@ -1330,6 +1400,14 @@ impl WalletSim {
                     Ok(Some(root)) => {
                         ctx.oracle_n("root_compared", 1);
                         if Some(root) != self.true_root(*pool, id) {
+                            if std::env::var_os("ZSIM_DEBUG").is_some() {
+                                let t = pool.name();
+                                let rows: Vec<(i64, Option<u32>, bool, i64)> = self.conn.prepare(&format!("SELECT shard_index, subtree_end_height, root_hash IS NOT NULL, length(shard_data) FROM {t}_tree_shards ORDER BY 1")).unwrap().query_map([], |r| Ok((r.get(0)?, r.get(1)?, r.get(2)?, r.get(3)?))).unwrap().map(|x| x.unwrap()).collect();
+                                eprintln!("  {t} shards: {rows:?}");
+                                eprintln!("  true subtrees now: {:?}", self.chain.completed_subtrees(*pool, self.chain.tip()).iter().map(|(i, h, r)| (*i, *h, hex::encode(&r[..4]))).collect::<Vec<_>>());
+                                let rh: Vec<(i64, Option<Vec<u8>>)> = self.conn.prepare(&format!("SELECT shard_index, root_hash FROM {t}_tree_shards ORDER BY 1")).unwrap().query_map([], |r| Ok((r.get(0)?, r.get(1)?))).unwrap().map(|x| x.unwrap()).collect();
+                                eprintln!("  stored shard roots: {:?}", rh.iter().map(|(i, r)| (*i, r.as_ref().map(|x| hex::encode(&x[..4])))).collect::<Vec<_>>());
+                            }
                             return viol(ctx, owns, Violation::new("root_at_checkpoint_equals_chain", format!("{} root at checkpoint {id} differs from the true root of the chain (tree size {true_size})", pool.name())));
                         }
                     }
@@ -1467,6 +1545,8 @@ impl WalletSim {
                 Err(e) => return Err(Violation::new("rewind_within_pruning_depth_succeeds", format!("truncate_to_height({d}) failed during reorg handling: {e}"))),
             }
         }
+        // 1c. subtree roots, as at the start of every sync session
+        self.refresh_roots_if_stale(ctx)?;
         // 2. tell the wallet the tip
         let tip = self.chain.tip();
         if self.tip_told != Some(tip) {
